@@ -466,6 +466,39 @@ def d_arrf1(E, fv, st, node, prog):
     return SArrVal("f8", [z3.IntVal(0)], {"v": z3.Lambda([c], body), "nan": z3.K(I, FALSE), "ninf": z3.K(I, FALSE)})
 
 
+def d_arrx1(E, fv, st, node, prog):
+    """arrx1(lambda t: e): the 1-D array value of extended reals e (value and -inf flag; never NaN)"""
+    lam = node.args[0]
+    n_ = lam.args.args[0].arg
+    c = z3.Int("arr!%s" % n_)
+    s = st.fork()
+    s.assumes = st.assumes
+    s.env[n_] = SInt(c)
+    f = fv.to_float(fv.ev(lam.body, s, False))
+    return SArrVal("f8", [z3.IntVal(0)], {"v": z3.Lambda([c], f.v), "nan": z3.K(I, FALSE), "ninf": z3.Lambda([c], f.ninf)})
+
+
+def d_named(E, fv, st, node, prog):
+    """named(a): the array value a under fresh constant names (a == the definition is assumed), so that
+    spec applications on it contain no lambda terms and can serve as quantifier patterns"""
+    (v,) = _args(fv, st, node, False, 1)
+    if isinstance(v, SArr):
+        v = fv.arr_value(st, v)
+    if not isinstance(v, SArrVal):
+        _err("named() expects an array value")
+    comps = {}
+    for c, t in v.comps.items():
+        if z3.is_quantifier(t) and t.is_lambda() and t.num_vars() == 1:
+            # pointwise definition with a select pattern instead of an equation with a lambda term
+            k = fv.fresh("named_" + c, t.sort())
+            i = fv.fresh_int("i")
+            st.assume(z3.ForAll([i], z3.Select(k, i) == z3.substitute_vars(t.body(), i), patterns=[z3.Select(k, i)]))
+            comps[c] = k
+        else:
+            comps[c] = t
+    return SArrVal(v.dtype, v.shape, comps)
+
+
 def d_xlog(E, fv, st, node, prog):
     (v,) = _args(fv, st, node, False, 1)
     f = fv.to_float(v)
@@ -560,6 +593,8 @@ BUILTINS = {
     "arr1": d_arr2,
     "arrb1": d_arrb1,
     "arrf1": d_arrf1,
+    "arrx1": d_arrx1,
+    "named": d_named,
     "exp": d_xexp,
     "lgamma": _uf1("lgamma", LGAMMA),
 }
